@@ -72,6 +72,117 @@ def behaviour_scripts(v, thorough, rng, seed):
     v.cov["behaviour_scripts"] = {"two_operations": len(scen) - len(seven), "seven_operations_simulated": len(seven)}
 
 
+def race_schedules(v, thorough, rng, seed):
+    """interleaved behaviours of the model (client operations and process-task steps in one order) forced step by step on a real Node"""
+    r = lib.tlc("mc/MC_LocalProcRace.tla", "gen/Gen_LocalProcRace.cfg", PID, "gen_race", workers=1, simulate=f"num={12000 if thorough else 2500}",
+                extra=["-depth", "70", "-seed", str(seed)], timeout=1500)
+    beh = list({json.dumps(x["steps"]): x for x in r.printed()}.values())
+    if not beh:
+        raise lib.ToolError("no race behaviours generated")
+
+    def profile(b):
+        """(overlapping exits, operations during an exit, exits with somebody to notify)"""
+        in_exit, overlap, ops_during, watched = set(), 0, 0, 0
+        for st in b["steps"]:
+            if st["k"] == "proc":
+                if st["to"] == "failed":
+                    if in_exit:
+                        overlap += 1
+                    in_exit.add(st["p"])
+                elif st["to"] == "gone":
+                    in_exit.discard(st["p"])
+            elif st["k"] == "client" and in_exit and st["op"][0] in ("link", "unlink", "monitor", "demonitor"):
+                ops_during += 1
+        watched = sum(len(n) for n in b["notices"].values())
+        return overlap, ops_during, watched
+    scored = [(profile(b), b) for b in beh]
+    pri = [b for (ov, od, wa), b in scored if (ov or od) and wa]
+    rest = [b for (ov, od, wa), b in scored if not ((ov or od) and wa)]
+    rng.shuffle(pri)
+    rng.shuffle(rest)
+    scen = pri[:(1500 if thorough else 110)] + rest[:(500 if thorough else 30)]
+    for i, s in enumerate(scen):
+        s["id"] = i
+    sp = os.path.join(lib.outdir(PID), "race_scenarios.ndjson")
+    op = os.path.join(lib.outdir(PID), "race_obs.ndjson")
+    lib.write_ndjson(sp, scen)
+    lib.harness(["localproc-race", sp, op], timeout=3000)
+    obs = lib.read_ndjson(op)
+    if len(obs) != len(scen):
+        raise lib.ToolError("race runner returned too few observations")
+    followed = 0
+    for s, o in zip(scen, obs):
+        if "tool_error" in o:
+            raise lib.ToolError("race runner: " + o["tool_error"])
+        v.case("race " + json.dumps(s["steps"]))
+        case = {"steps": [(st["op"] if st["k"] == "client" else [st["p"], "->", st["to"]]) for st in s["steps"] if st["k"] != "client2"]}
+        if o["notes"]:
+            v.add_drift("race schedule could not be followed: " + "; ".join(o["notes"][:2]), case)
+            continue
+        followed += 1
+        # ---- what the property says for sure: a watcher that never fails, whose link / monitor was in place when the target failed
+        failed_at, links, mons, expect = {}, set(), {}, {}
+        for i, st in enumerate(s["steps"]):
+            if st["k"] == "client":
+                o_ = st["op"]
+                if o_[0] == "link":
+                    links.add(frozenset((o_[1], o_[2])))
+                elif o_[0] == "unlink":
+                    links.discard(frozenset((o_[1], o_[2])))
+                    # a relation taken back while the target is on its way out: whether the notice still goes out is left open
+                    for q_, t_ in ((o_[1], o_[2]), (o_[2], o_[1])):
+                        expect[q_] = [e for e in expect.get(q_, []) if not (e[0] == "exit" and e[1] == t_)]
+                elif o_[0] == "monitor":
+                    mons[o_[3]] = (o_[1], o_[2])
+                elif o_[0] == "demonitor":
+                    mons.pop(o_[3], None)
+                    expect[o_[1]] = [e for e in expect.get(o_[1], []) if not (e[0] == "down" and e[2] == o_[3])]
+            elif st["k"] == "proc" and st["to"] == "failed":
+                p = st["p"]
+                failed_at[p] = i
+                for l in links:
+                    if p in l:
+                        (q,) = l - {p}
+                        expect.setdefault(q, []).append(["exit", p, 0])
+                for ref, (watcher, target) in mons.items():
+                    if target == p:
+                        expect.setdefault(watcher, []).append(["down", p, ref])
+        for q, exp in expect.items():
+            if q in failed_at:
+                continue
+            got = o["notices"].get(q, [])
+            for e in exp:
+                n = got.count(e)
+                if n != 1:
+                    v.violation("a live process whose link / monitor was in place when its target failed was " + ("not notified of the termination" if n == 0 else "notified more than once"),
+                                {**case, "watcher": q, "notice": e, "times_received": n, "all_notices_received": got})
+        for q, got in o["notices"].items():
+            keys = [json.dumps(g) for g in got]
+            if len(keys) != len(set(keys)):
+                v.violation("a process was notified of the same termination more than once", {**case, "process": q, "notices": got})
+        for p_ in sorted(s["handled"].keys()):
+            exp = [h[0] for h in s["handled"][p_]]
+            got = o["handled"].get(p_, [])
+            if got != exp:
+                if len(got) != len(set(got)):
+                    v.violation("a message was handed to a process more than once", {**case, "process": p_, "expected": exp, "got": got})
+                elif set(got) - set(exp):
+                    v.violation("a process was handed a message that the model says it never handles (sent after its failure, or to another process)", {**case, "process": p_, "expected": exp, "got": got})
+                elif [g for g in exp if g in got] != got:
+                    v.violation("messages were handed to a process out of the order in which they were sent", {**case, "process": p_, "expected": exp, "got": got})
+                else:
+                    v.violation("a message the process should have handled before it failed was never handed to it", {**case, "process": p_, "expected": exp, "got": got})
+            if p_ in o["alive"] and o["alive"][p_] and not s["alive"][p_]:
+                v.violation("a terminated process still resolves", {**case, "process": p_})
+        # ---- everything else against the implementation-shaped model: drift
+        for q in s["notices"]:
+            if q not in failed_at and sorted(json.dumps(n) for n in s["notices"][q]) != sorted(json.dumps(n) for n in o["notices"].get(q, [])):
+                v.add_drift("notices of a live process differ from the implementation-shaped model in a race the property leaves open", {**case, "process": q, "model": s["notices"][q], "got": o["notices"].get(q, [])})
+    v.cov["race_schedules"] = {"generated": len(beh), "with_overlapping_exits_or_operations_during_an_exit": len(pri), "executed": len(scen), "followed_to_the_end": followed}
+    if followed < len(scen) * 0.8:
+        raise lib.ToolError(f"only {followed} of {len(scen)} race schedules could be followed on the real node")
+
+
 def run(tier, seed):
     v = lib.Verdict(PID, tier, seed, "model_checking")
     thorough = tier == "thorough"
@@ -114,6 +225,7 @@ def run(tier, seed):
     lib.tlc_expect_violation("mc/MC_Behaviours.tla", "mc/MC_Behaviours_silent.cfg", PID, "beh_silent", "GeAnswered")
     v.cov["mc_configs"].append({"cfg": "MC_Behaviours_silent", "result": "counterexample to GeAnswered without ErrorReplyOnMissing"})
     behaviour_scripts(v, thorough, rng, seed)
+    race_schedules(v, thorough, rng, seed)
     scen = list({json.dumps(b["hist"]): b for b in four + eight + links}.values())
     scen.append({"hist": [["late_link", "", "", ""]], "adversarial": "late_link"})
     scen.append({"hist": [["full_mailbox", "", "", ""]], "adversarial": "full_mailbox"})
